@@ -271,7 +271,9 @@ static void editor_case(void)
 		long o = 0, elen = 0;
 		char script[256];
 		vfs_put("in", content, content_len);
-		snprintf(script, sizeof(script), ":w! out\n:%d,%dw! out2\n:%%p\n:q!\n", en > 1 ? 2 : 1, en > 0 ? en : 1);
+		/* the forced write goes over a file that held more data; out3 does not exist before */
+		vfs_put("out", "previous content of the target\n", -1);
+		snprintf(script, sizeof(script), ":w! out\n:w out3\n:%d,%dw! out2\n:%%p\n:q!\n", en > 1 ? 2 : 1, en > 0 ? en : 1);
 		nvx_feed(script, -1);
 		in_editor = 1;
 		alarm(20);
@@ -293,6 +295,13 @@ static void editor_case(void)
 					break;
 				}
 			}
+		}
+		/* a new path gets the same bytes (an empty buffer still creates an empty file) */
+		{
+			struct vfile *f3 = vfs_find("out3");
+			f = vfs_find("out");
+			if (!f3 || !f3->exists || f3->len != elen || (f && f->exists && f->len == elen && memcmp(f3->data, f->data, elen)))
+				nv_viol("c01-editor-write", "kind=editor %s: :w to a new path wrote %ld bytes, expected %ld", casedesc, f3 && f3->exists ? f3->len : -1, elen);
 		}
 		/* out2 = lines 2..$ (or 1..1) */
 		if (en > 0) {
